@@ -925,6 +925,13 @@ func (g *generator) nextInner() Op {
 			return Op{Op: "Unregister", Reg: g.pick(live)}
 		case "reset":
 			return Op{Op: "Reset"}
+		case "gdeck":
+			// systematic cover of the generated generic code: every (method, arity, with/without target) card of a shuffled
+			// deck is played in turn; a card that needs an entity of a certain shape first gets one made (and stays on top)
+			if op, ok := g.playCard(alive); ok {
+				return op
+			}
+			continue
 		case "gcreate":
 			if len(alive) >= g.p.MaxEnts && !g.pct(10) {
 				continue
@@ -1314,4 +1321,162 @@ func defaultWeights() map[string]int {
 		"batchex": 6, "batchsetrel": 4, "batchremove": 2, "panel": 8, "open": 3, "qnext": 4, "qclose": 2,
 		"register": 4, "unregister": 1, "reset": 1, "read": 3, "res": 3,
 	}
+}
+
+// deckCard is one cell of the generic API table: method x arity x target variant.
+type deckCard struct {
+	api string
+	ar  int
+	tgt bool
+}
+
+var (
+	deck    []deckCard
+	deckPos int
+)
+
+func (g *generator) buildDeck() {
+	deck = deck[:0]
+	for ar := 1; ar <= 12; ar++ {
+		for _, api := range []string{"New", "NewWith", "NewBatch", "NewBatchQ", "Add", "Remove", "AddBatch", "AddBatchQ",
+			"RemoveBatch", "RemoveBatchQ"} {
+			deck = append(deck, deckCard{api, ar, false}, deckCard{api, ar, true})
+		}
+		for _, api := range []string{"Assign", "RemoveEntities", "RemoveEntitiesQ", "Get"} {
+			deck = append(deck, deckCard{api, ar, false})
+		}
+	}
+	g.rng.Shuffle(len(deck), func(i, j int) { deck[i], deck[j] = deck[j], deck[i] })
+	deckPos = 0
+}
+
+// playCard turns the top card into an operation. Preparatory operations leave the card on top.
+func (g *generator) playCard(alive []int) (Op, bool) {
+	if deckPos >= len(deck) {
+		g.buildDeck()
+	}
+	c := deck[deckPos]
+	ar := c.ar
+	// the Map of arity ar covers ids 0..ar-1; id 2 is a relation component
+	withRel := ar >= 3
+	setTarget := func(op *Op) {
+		if !c.tgt {
+			return
+		}
+		op.HasTgt = true
+		op.Tgt = g.target(false)
+		if withRel && g.pct(70) {
+			op.HasRel, op.Rel = true, 2 // otherwise: a target for a Map built without relation must be rejected
+		}
+	}
+	lead := func(mask []int) int {
+		n := 0
+		for n < 12 && !contains(mask, n) {
+			n++
+		}
+		return n
+	}
+	run := func(mask []int) int {
+		n := 0
+		for n < 12 && contains(mask, n) {
+			n++
+		}
+		return n
+	}
+	switch c.api {
+	case "New", "NewWith", "NewBatch", "NewBatchQ":
+		deckPos++
+		op := Op{Op: "BuilderNew", Api: "generic.Map.New", Ar: ar, Tgt: -1}
+		switch c.api {
+		case "NewWith":
+			op.Api, op.WithV, op.Vals = "generic.Map.NewWith", true, g.vals(seqIDs(ar))
+		case "NewBatch":
+			op.Op, op.Api, op.N = "NewBatch", "generic.Map.NewBatch", 1+g.rng.Intn(g.p.MaxBatch)
+		case "NewBatchQ":
+			op.Op, op.Api, op.N = "NewBatch", "generic.Map.NewBatchQ", 1+g.rng.Intn(g.p.MaxBatch)
+			op.Q, op.Walk = true, g.walk()
+		}
+		setTarget(&op)
+		return op, true
+	case "Add", "Assign":
+		for _, ref := range alive {
+			m := g.maskOf(ref)
+			if lead(m) >= ar && (!withRel || g.relOf(m) < 0) {
+				deckPos++
+				op := Op{Op: "Exchange", Api: "generic.Map.Add", E: ref, Ar: ar, Tgt: -1}
+				if c.api == "Assign" {
+					op.Op, op.Api, op.Vals = "Assign", "generic.Map.Assign", g.vals(seqIDs(ar))
+				} else {
+					setTarget(&op)
+				}
+				return op, true
+			}
+		}
+		return Op{Op: "NewEntity", Api: "World.NewEntity", Ids: []int{}}, true
+	case "Remove", "Get":
+		for _, ref := range alive {
+			m := g.maskOf(ref)
+			if run(m) >= ar {
+				deckPos++
+				if c.api == "Get" {
+					return Op{Op: "Read", Api: "generic.Map.Get", E: ref, Ar: ar}, true
+				}
+				op := Op{Op: "Exchange", Api: "generic.Map.Remove", E: ref, Ar: ar, Tgt: -1}
+				if c.tgt && contains(m, 12) {
+					op.HasRel, op.Rel, op.HasTgt = true, 12, true
+					op.Tgt = g.target(false)
+				} else if c.tgt {
+					// target although the relation component goes away with the removal: must be rejected
+					setTarget(&op)
+				}
+				return op, true
+			}
+		}
+		return Op{Op: "BuilderNew", Api: "generic.Map.New", Ar: ar, Tgt: -1}, true
+	case "AddBatch", "AddBatchQ":
+		// a filter over one high component that only entities without 0..ar-1 carry
+		for _, hi := range []int{11, 10, 9, 8, 7, 6, 5, 4, 3} {
+			if hi < ar {
+				break
+			}
+			f := &FSpec{K: "all", Ids: []int{hi}, Tgt: -1}
+			match := g.matching(f)
+			ok := len(match) > 0
+			for _, ref := range match {
+				m := g.maskOf(ref)
+				ok = ok && lead(m) >= ar && (!withRel || g.relOf(m) < 0)
+			}
+			if ok {
+				deckPos++
+				op := Op{Op: "BatchExchange", Api: "generic.Map." + c.api, F: f, Ar: ar, Tgt: -1}
+				if c.api == "AddBatchQ" {
+					op.Q, op.Walk = true, g.walk()
+				}
+				setTarget(&op)
+				return op, true
+			}
+		}
+		if ar >= 12 {
+			deckPos++ // no component above the arity to select by
+			return Op{}, false
+		}
+		return Op{Op: "NewEntity", Api: "World.NewEntity", Ids: []int{11}}, true
+	case "RemoveBatch", "RemoveBatchQ":
+		f := &FSpec{K: "all", Ids: seqIDs(ar), Tgt: -1}
+		if len(g.matching(f)) == 0 {
+			return Op{Op: "BuilderNew", Api: "generic.Map.New", Ar: ar, Tgt: -1}, true
+		}
+		deckPos++
+		op := Op{Op: "BatchExchange", Api: "generic.Map." + c.api, F: f, Ar: ar, Tgt: -1}
+		if c.api == "RemoveBatchQ" {
+			op.Q, op.Walk = true, g.walk()
+		}
+		setTarget(&op)
+		return op, true
+	case "RemoveEntities", "RemoveEntitiesQ":
+		deckPos++
+		return Op{Op: "BatchRemove", Api: "generic.Map.RemoveEntities", Ar: ar, Q: c.api == "RemoveEntitiesQ"}, true
+	}
+	deckPos++
+	return Op{}, false
 }
